@@ -8,6 +8,7 @@ import Carquet.Proofs.RleLevels
 import Carquet.Proofs.RleLevelsF58
 import Carquet.Proofs.RleSpecDecoder
 import Carquet.Proofs.RleSpecEncoder
+import Carquet.Proofs.RleHistory
 /-
 C12 — encoded bytes follow the Parquet encoding specifications (part: ULEB128 varints, raw bit
 packing, RLE/bit-packed hybrid).  Both directions:
@@ -43,6 +44,26 @@ theorem C12_rle_impl_to_spec (w : Nat) (hw : w ≤ 32) (vs : List Nat) (hv : ∀
 example : Spec.RleHybrid.decode 3 (Rle.encode 3 [1, 2, 3, 5, 5, 5, 5, 5, 5, 5, 5, 5, 5, 5, 5, 1]) 16
     = .ok [1, 2, 3, 5, 5, 5, 5, 5, 5, 5, 5, 5, 5, 5, 5, 1] :=
   C12_rle_impl_to_spec 3 (by decide) _ (by decide)
+
+/-- **impl → spec for arbitrary encoder histories.**  Whatever sequence of put / put_repeat /
+flush calls is made on a fresh encoder (flushes anywhere), the bytes written up to a final flush
+are complete runs of the Spec grammar, and the independent Spec decoder reads from them the values
+put, in order, with `pads[i] < 8` zeros after the values preceding the i-th flush
+(see `C11_rle_history_roundtrip`). -/
+theorem C12_rle_history_to_spec (w : Nat) (hw : w ≤ 32) (ops : List Rle.EncOp)
+    (hv : ∀ v ∈ Rle.histValues ops, v < 2 ^ w) :
+    Spec.RleHybrid.Runs w (Rle.runEncOps (Rle.Enc.init w) (ops ++ [.flush])).out
+      (Rle.denoteWith (Rle.flushPads (Rle.Enc.init w) (ops ++ [.flush])) (ops ++ [.flush])) ∧
+    Spec.RleHybrid.decode w (Rle.runEncOps (Rle.Enc.init w) (ops ++ [.flush])).out
+        (Rle.denoteWith (Rle.flushPads (Rle.Enc.init w) (ops ++ [.flush])) (ops ++ [.flush])).length
+      = .ok (Rle.denoteWith (Rle.flushPads (Rle.Enc.init w) (ops ++ [.flush])) (ops ++ [.flush])) := by
+  obtain ⟨hr, _, _⟩ := RleHistory.history_runs hw ops hv
+  refine ⟨hr, ?_⟩
+  rw [RleSpecDecoder.decode_complete hr _ (Nat.le_refl _)]
+  simp
+
+example : Spec.RleHybrid.decode 3 (Rle.runEncOps (Rle.Enc.init 3) [.put 1, .flush, .rep 5 9, .flush, .put 2, .put 2, .flush]).out 25
+    = .ok [1, 0, 0, 0, 0, 0, 0, 0, 5, 5, 5, 5, 5, 5, 5, 5, 5, 2, 2, 0, 0, 0, 0, 0, 0] := by decide
 
 /-- **spec → impl.**  For every stream of the grammar, `carquet_rle_decode_all` asked for
 `|vs|` values returns exactly `vs` (so its return value is `|vs|`); the int16 fast path
